@@ -1,3 +1,4 @@
 pub mod config;
 pub mod dsl;
 pub mod field;
+pub mod mutate;
